@@ -18,8 +18,8 @@ Theorem C08_7z_decision_from_bytes :
     (max_7z T <? lenN (archive_bytes crc32 area (ser_header h crcs ef wa))) = false ->
     let file := archive_bytes crc32 area (ser_header h crcs ef wa) in
     let out := read_7z_bytes R T lzma_alone lzma2_raw crc32 supported lower extract file apath in
-    (fin R out = Raise Encrypted <-> has_aes (map folder_ids (h_folders h)) = true)
-    /\ (has_aes (map folder_ids (h_folders h)) = true -> yields R out = []).
+    (fin out = Raise Encrypted <-> has_aes (map folder_ids (h_folders h)) = true)
+    /\ (has_aes (map folder_ids (h_folders h)) = true -> yields out = []).
 Proof. intros. apply sevenz_bytes_decision; assumption. Qed.
 Print Assumptions C08_7z_decision_from_bytes.
 
